@@ -7,6 +7,7 @@ CONSTANTS
   WithEmpty = TRUE
   Levels = {"cold", "upper", "all"}
   MaxStep = 1
+  Plain = TRUE
   OnlyLayouts = FALSE
   FullProduct = TRUE
 INVARIANTS ObjCorrect FormatLossless SideRule LatentUnreachable WarmIsCanon PrintLayout
